@@ -31,7 +31,7 @@ class AbiError(Exception):
 class Ty:
     """kind: void bool int flt ptr arr rec fn unsupported"""
     __slots__ = ("kind", "size", "sign", "to", "n", "name", "tag", "params", "ret", "variadic", "why", "const",
-                 "isref", "unsafe")
+                 "isref", "unsafe", "ffi")
 
     def __init__(self, kind, **kw):
         self.kind = kind
@@ -147,9 +147,10 @@ def c_tokens(s):
 class CTypes:
     """Resolves clang type spellings to Ty using the typedef table of the translation unit."""
 
-    def __init__(self, typedefs):
+    def __init__(self, typedefs, base=None):
         self.typedefs = typedefs   # name -> underlying spelling
         self.cache = {}
+        self.base = C_BASE if base is None else base    # another target's table (abix.py)
 
     def parse(self, spelling):
         if spelling in self.cache:
@@ -174,10 +175,16 @@ class CTypes:
             key = " ".join(core)
             if has_unsigned:
                 key = "unsigned " + key
-        if key not in C_BASE:
+        if key not in self.base:
             raise AbiError("unknown C base type %r" % " ".join(words))
-        b = C_BASE[key]
-        return Ty(b[0]) if len(b) == 1 else (T_int(b[1], b[2], key) if b[0] == "int" else T_flt(b[1]))
+        b = self.base[key]
+        if len(b) == 1:
+            return Ty(b[0])
+        if b[0] == "int":
+            return T_int(b[1], b[2], key)
+        t = T_flt(b[1])
+        t.name = key        # spelling, for c_render (long double has the size of double on some targets)
+        return t
 
     def _type_name(self, toks, i):
         const = False
@@ -303,7 +310,7 @@ def c_render(t, inner=""):
         elif k == "bool":
             b = "_Bool"
         elif k == "flt":
-            b = {4: "float", 8: "double", 16: "long double"}[t.size]
+            b = t.name or {4: "float", 8: "double", 16: "long double"}[t.size]
         elif t.name:
             b = t.name
         else:
@@ -328,15 +335,17 @@ def c_render(t, inner=""):
     raise AbiError("cannot render " + k)
 
 
-def clang_ast(repo, cfg_header, workdir, real):
+def clang_ast(repo, cfg_header, workdir, real, extra_args=(), extra_src=""):
+    """extra_args / extra_src: other targets (abix.py): front-end options and text appended to the
+    translation unit (constants the caller reads back from the AST)"""
     workdir = Path(workdir)
     workdir.mkdir(parents=True, exist_ok=True)
     hdrs = sorted(p.name for p in (Path(repo) / "include" / "a").glob("*.h"))
     if not hdrs:
         raise AbiError("no headers under %s/include/a" % repo)
     src = workdir / ("all_r%d.c" % real)
-    src.write_text("".join('#include "a/%s"\n' % h for h in hdrs))
-    cmd = ["clang", "-std=c11", "-I", str(Path(repo) / "include"), "-DA_EXPORTS",
+    src.write_text("".join('#include "a/%s"\n' % h for h in hdrs) + extra_src)
+    cmd = ["clang", "-std=c11"] + list(extra_args) + ["-I", str(Path(repo) / "include"), "-DA_EXPORTS",
            '-DA_HAVE_H="%s"' % cfg_header, "-fsyntax-only", "-Xclang", "-ast-dump=json", str(src)]
     p = subprocess.run(cmd, stdout=subprocess.PIPE, stderr=subprocess.PIPE, text=True, timeout=120)
     if p.returncode != 0:
@@ -351,11 +360,17 @@ def c_decls(repo, cfg_header, workdir, real):
     """All named a_* records (complete definitions), all a_* functions with external linkage and all
     a_* extern variables of the current headers."""
     ast, hdrs, src = clang_ast(repo, cfg_header, workdir, real)
+    return c_decls_of_ast(ast, hdrs, src)
+
+
+def c_decls_of_ast(ast, hdrs, src, base=None):
+    """the declaration list of a translation unit's AST; base: table of the base types (default: the
+    host's C_BASE; abix.py passes the table it read from the target's own front end)"""
     typedefs = {}
     for x in ast["inner"]:
         if x["kind"] == "TypedefDecl":
             typedefs[x["name"]] = x["type"]["qualType"]
-    ct = CTypes(typedefs)
+    ct = CTypes(typedefs, base)
     d = Decls()
     d.meta = {"headers": hdrs, "src": str(src), "ctypes": ct, "spellings": {}, "fnty": {}, "recs": {}}
     seen_fn = {}
@@ -728,7 +743,10 @@ class RustParser:
             return Ty(b[0]) if len(b) == 1 else (T_int(b[1], b[2], name) if b[0] == "int" else T_flt(b[1]))
         if name in RUST_FFI:
             self.ffi_used.add(name)
-            return self.named_type(RUST_FFI[name])
+            t = self.named_type(RUST_FFI[name])
+            t = Ty(t.kind, **{s: getattr(t, s) for s in Ty.__slots__[1:]})
+            t.ffi = name        # the alias it was written as (another target may define it differently: abix.py)
+            return t
         if name == "c_void":
             return T_void()
         return T_rec(name)      # must turn out to be a repr(C) struct (checked at the end)
@@ -1067,6 +1085,47 @@ def emit_thm_file(module, pairs):
         out.append("Print Assumptions liba_abi_%s_agree." % tag)
         out.append("Theorem liba_layouts_%s_wf : decls_layout_wf %s /\\ decls_layout_wf %s.\n"
                    "Proof. split; apply decls_layout_wf_all. Qed." % (tag, r, c))
+        out.append("Print Assumptions liba_layouts_%s_wf." % tag)
+        out.append("")
+    return "\n".join(out) + "\n"
+
+
+def coq_target(tg):
+    """tg: (pointer size, alignment of 8-byte scalars, alignment of 16-byte scalars) -> AbiTarget.target"""
+    return "{| t_ptr := %d; t_a8 := %d; t_a16 := %d |}" % tuple(tg)
+
+
+def emit_eval_file_t(module, pairs, dumps, tg):
+    """as emit_eval_file, through the target-parametric model of coq/C20/AbiTarget.v"""
+    out = ["From Coq Require Import NArith List String.",
+           "From LibaV Require Import C20.AbiDefs C20.AbiTarget.", "Require Import %s." % module,
+           "Import ListNotations.", "Local Open Scope string_scope.", "Local Open Scope N_scope.",
+           "Set Printing Width 1000000.", "Set Printing Depth 1000000.", "",
+           "Definition tg : target := %s." % coq_target(tg),
+           'Eval vm_compute in ("BEGIN-TARGET-OK", target_ok tg, "END-TARGET-OK").']
+    for n in dumps:
+        out.append('Eval vm_compute in ("BEGIN-DUMP %s", dump_decls_t tg %s, "END-DUMP").' % (n, n))
+    for tag, r, c in pairs:
+        out.append('Eval vm_compute in ("BEGIN-MM %s", abi_mismatches_t tg %s %s, "END-MM").' % (tag, r, c))
+    return "\n".join(out) + "\n"
+
+
+def emit_thm_file_t(module, pairs, tg):
+    """as emit_thm_file, for a cross target: the reflection theorems of the parametric model"""
+    out = ["(* GENERATED: reflection theorems for a cross target, re-checked against the declaration lists regenerated",
+           "   with that target's compiler front ends *)",
+           "From Coq Require Import NArith List String.",
+           "From LibaV Require Import C20.AbiDefs C20.AbiSpec C20.AbiProofs C20.AbiTarget.", "Require Import %s." % module, "",
+           "Definition tg : target := %s." % coq_target(tg),
+           "Lemma tg_ok : target_ok tg = true.\nProof. vm_compute. reflexivity. Qed.", ""]
+    for tag, r, c in pairs:
+        out.append("Theorem liba_abi_%s : abi_compatible_t tg %s %s = true.\nProof. vm_compute. reflexivity. Qed." % (tag, r, c))
+        out.append("Print Assumptions liba_abi_%s." % tag)
+        out.append("Theorem liba_abi_%s_agree : abi_agree_t tg %s %s.\nProof. exact (abi_compatible_t_sound tg _ _ liba_abi_%s). Qed."
+                   % (tag, r, c, tag))
+        out.append("Print Assumptions liba_abi_%s_agree." % tag)
+        out.append("Theorem liba_layouts_%s_wf : decls_layout_wf_t tg %s /\\ decls_layout_wf_t tg %s.\n"
+                   "Proof. split; apply (decls_layout_wf_t_all tg tg_ok). Qed." % (tag, r, c))
         out.append("Print Assumptions liba_layouts_%s_wf." % tag)
         out.append("")
     return "\n".join(out) + "\n"
